@@ -69,7 +69,7 @@ static void case_c08(const args_t *a, long c, rng_t *r)
 	model_t acc; model_init(&acc);           /* accepted entries, in order */
 	size_t nadds = 5 + rndn(r, a->thorough ? 1200 : 500);
 	uint8_t *last = NULL; size_t ll = 0; bool have_last = false;
-	int first_kind = rndn(r, 4);
+	int first_kind = rndn(r, 5);        /* 4: the first key ends in a 00 byte and is offered again at once (the writer's first refusal concerns a key with a trailing NUL) */
 	uint64_t vid = 0;
 	char sample_buf[600]; int so = 0;
 	for (size_t i = 0; i < nadds; i++) {
@@ -78,9 +78,9 @@ static void case_c08(const args_t *a, long c, rng_t *r)
 		if (!have_last) {
 			/* first add: anything is accepted, incl. the empty key */
 			if (first_kind == 0) { k = xmalloc(1); lk = 0; cls = "first-empty-key"; }
-			else { lk = 1 + rndn(r, first_kind == 1 ? 200 : 6); k = xmalloc(lk); for (size_t j = 0; j < lk; j++) k[j] = first_kind == 3 ? TINY_ALPHA[rndn(r, 4)] : (uint8_t)rnd64(r); }
+			else { lk = 1 + rndn(r, first_kind == 1 ? 200 : 6); k = xmalloc(lk); for (size_t j = 0; j < lk; j++) k[j] = first_kind == 3 ? TINY_ALPHA[rndn(r, 4)] : (uint8_t)rnd64(r); if (first_kind == 4) { k[lk - 1] = 0; cls = "first-key-ends-in-00"; } }
 			expect = true;
-		} else if (rndp(r, 400)) { key_not_above(r, last, ll, &k, &lk, &cls); expect = false; }
+		} else if ((i == 1 && first_kind == 4) || rndp(r, 400)) { key_not_above(r, last, ll, &k, &lk, &cls); expect = false; }
 		else { key_above(r, last, ll, &k, &lk, &cls); expect = true; }
 		/* the model decides, not the generator's intention */
 		bool model_expect = !have_last || key_cmp(k, lk, last, ll) > 0;
